@@ -690,6 +690,10 @@ class Walker:
                     else:
                         outs.extend(self._assign_target(t, v2, s2, node))
                 return outs
+        if isinstance(t, (ast.Tuple, ast.List)) and isinstance(val, tuple) and len(val) == 2 and val[0] == "global" and val[1].startswith("const:"):
+            lit0 = self.eng.const_literal(val[1][6:])
+            if lit0 is not None and ((is_lit(lit0) and lit0[1] == "tuple") or lit0[0] == "nt"):
+                val = lit0  # unpacking a module-level tuple / record
         if isinstance(t, (ast.Tuple, ast.List)):
             outs = [(s, "fall", None)]
             for i, e in enumerate(t.elts):
@@ -1464,7 +1468,36 @@ class Walker:
         if h.type is None:
             return ["BaseException"]
         nodes = h.type.elts if isinstance(h.type, ast.Tuple) else [h.type]
-        return [self.exc_class_name(x, st) for x in nodes]
+        out = []
+        for x in nodes:
+            names = self._exc_tuple_constant(x, st)
+            if names is not None:
+                out.extend(names)
+            else:
+                out.append(self.exc_class_name(x, st))
+        return out
+
+    def _exc_tuple_constant(self, node, st):
+        """except ERRORS: where ERRORS is a module-level tuple of exception classes"""
+        chain = dotted_chain(node)
+        if not chain or not self._is_module_level(chain[0], st):
+            return None
+        r, rest = self.prog.resolve_dotted(self.mod, chain)
+        if r[0] != "const" or rest:
+            return None
+        lit = self.eng.const_literal("%s.%s" % (r[1], r[2]))
+        if lit is None or not (is_lit(lit) and lit[1] == "tuple"):
+            return None
+        names = []
+        for it in lit[2]:
+            if isinstance(it, tuple) and len(it) == 2 and it[0] == "global" and it[1].startswith(("builtin:", "class:", "ext:")):
+                nm = it[1].split(":", 1)[1]
+                if it[1].startswith("ext:"):
+                    nm = self.prog.exc_name_of_resolution(("ext", nm)) or nm
+                names.append(nm.split(".")[-1] if it[1].startswith("class:") else nm)
+            else:
+                return None
+        return names
 
     # ------------------------------------------------------------------ conditions
     def cond(self, e, st):
@@ -2145,6 +2178,7 @@ class Walker:
                 keep = frozenset(f for f in truthy_facts if _mentions(f, el))
                 self.comp_facts[(it, loop_id)] = keep
                 self.eng.__dict__.setdefault("_comp_store", {})[("facts", loop_id)] = (it, keep)
+            self.eng.__dict__.setdefault("_comp_store", {})[("ifs", loop_id)] = bool(g.ifs)
             if not g.ifs and kind != "dict":
                 self.comp_alts[(it, loop_id)] = (frozenset(truthy_alts), frozenset(falsy_alts))
                 self.eng.__dict__.setdefault("_comp_store", {})[("alts", loop_id)] = (it, (frozenset(truthy_alts), frozenset(falsy_alts)))
